@@ -131,6 +131,12 @@ void LowMemoryRescaledHmmLikelihood::computeForward_()
   logLik_ = 0;
   size_t offset = 0;
   greater<double> cmp;
+  if (maxSize_ == 1)
+  {
+    // a chunk of one site is complete as soon as site 0 is stored
+    logLik_ = lScales[0];
+    offset = 1;
+  }
   for (size_t i = 1; i < nbSites_; i++)
   {
     // Swap pointers:
